@@ -87,7 +87,7 @@ CHECKS = {
          'proof of totality with explicit fuel + model/code correspondence', '7 C14'),
  'C15': ('Theorems c15_*: no applying rule gives RuleDescriptorMatchError under FIRST and BEST, an unparsable packet gives the parser\'s error, '
          'no leading rule id gives RuleIDMatchError; the front end skips contexts signalling these errors in order, takes the first other '
-         'outcome, and returns the packet unchanged when none applies; a context without any rule is skipped like the others; what the front end compresses it decompresses back when rule ids are prefix-free across the contexts (c15_front_roundtrip, _c01). Tie: manager error cases and front-end histories over 1..4 contexts (some without rules, strategies also given by value) '
+         'outcome, and returns the packet unchanged when none applies; a context without any rule is skipped like the others; what the front end compresses it decompresses back when rule ids are prefix-free across the contexts (c15_front_roundtrip, _c01, _bytes, _ctx_bytes). Tie: manager error cases and front-end histories over 1..4 contexts (some without rules, strategies also given by value) '
          'vs extracted model. Byte level: c15_nomatch_bytes, c15_noid_bytes, c15_front_compress_bytes, c15_front_decompress_bytes.', 'proof (case analysis of the front-end loops) + model/code correspondence', '7 C15'),
  'C18': ('Theorems c18_*: the descriptors used for direction d are exactly those marked d or Bi in rule order, by the matcher, compress and '
          'decompress alike (same select function), and such a rule round-trips packets of direction d. Tie: rules with Up/Dw alternatives at '
